@@ -607,6 +607,164 @@ func analyseScan(repo string, shape *[]string) scanFacts {
 	return sf
 }
 
+
+// ------------------------------------------------------------ node state of TryStatement
+
+// Model.Exc.execC scans the clauses afresh for every thrown value: the statement has no state. A field of the node
+// written while the statement runs (a memo of the dispatch, a counter, a cached control) makes what the statement does
+// depend on what the same node met before. Reported: the fields of TryStatement beyond the embedded Node and the three
+// blocks the parser fills; inside the methods of TryStatement every assignment / ++ / -- whose target is rooted at the
+// receiver, every `&recv.F`, every call of a method on a field of the receiver that is an extra field or whose name
+// says it stores (Store, LoadOrStore, Swap, CompareAndSwap, Delete, LoadAndDelete, Add, Set, Put, Push, Append, Do),
+// and every use of the receiver itself as a value (a key of a side table, an argument).
+type nodeFacts struct {
+	writes      []string
+	extraFields []string
+}
+
+var storingMethods = map[string]bool{"Store": true, "LoadOrStore": true, "Swap": true, "CompareAndSwap": true, "Delete": true,
+	"LoadAndDelete": true, "Add": true, "Set": true, "Put": true, "Push": true, "Append": true, "Do": true, "Inc": true, "Dec": true}
+
+// the receiver-rooted field an expression denotes: recv.F, recv.F.G, recv.F[i], (*recv).F …; "" if not rooted at recv
+func rootedField(e ast.Expr, recv string) string {
+	switch t := e.(type) {
+	case *ast.ParenExpr:
+		return rootedField(t.X, recv)
+	case *ast.StarExpr:
+		return rootedField(t.X, recv)
+	case *ast.IndexExpr:
+		return rootedField(t.X, recv)
+	case *ast.SliceExpr:
+		return rootedField(t.X, recv)
+	case *ast.SelectorExpr:
+		if id, ok := t.X.(*ast.Ident); ok && id.Name == recv {
+			return t.Sel.Name
+		}
+		if p, ok := t.X.(*ast.ParenExpr); ok {
+			if st, ok := p.X.(*ast.StarExpr); ok {
+				if id, ok := st.X.(*ast.Ident); ok && id.Name == recv {
+					return t.Sel.Name
+				}
+			}
+		}
+		return rootedField(t.X, recv)
+	}
+	return ""
+}
+
+func analyseNode(repo string, shape *[]string) nodeFacts {
+	var nf nodeFacts
+	fset, files, err := ex.ParseDir(repo, "node")
+	if err != nil {
+		*shape = append(*shape, fmt.Sprintf("cannot parse node/: %v", err))
+		return nf
+	}
+	f := files["try.go"]
+	if f == nil {
+		*shape = append(*shape, "node/try.go not found")
+		return nf
+	}
+	filled := map[string]bool{"TryBlock": true, "CatchBlocks": true, "FinallyBlock": true}
+	extra := map[string]bool{}
+	foundType := false
+	for _, d := range f.Decls {
+		gd, ok := d.(*ast.GenDecl)
+		if !ok {
+			continue
+		}
+		for _, sp := range gd.Specs {
+			ts, ok := sp.(*ast.TypeSpec)
+			if !ok || ts.Name.Name != "TryStatement" {
+				continue
+			}
+			st, ok := ts.Type.(*ast.StructType)
+			if !ok {
+				*shape = append(*shape, "TryStatement is not a struct")
+				continue
+			}
+			foundType = true
+			for _, fl := range st.Fields.List {
+				ty := ex.TypeString(fl.Type)
+				if len(fl.Names) == 0 {
+					if ty != "*Node" {
+						extra[ty] = true
+						nf.extraFields = append(nf.extraFields, "(embedded) "+ty)
+					}
+					continue
+				}
+				for _, nm := range fl.Names {
+					if !filled[nm.Name] {
+						extra[nm.Name] = true
+						nf.extraFields = append(nf.extraFields, nm.Name+" "+ty)
+					}
+				}
+			}
+		}
+	}
+	if !foundType {
+		*shape = append(*shape, "type TryStatement not found in node/try.go")
+	}
+	methods := 0
+	for _, d := range f.Decls {
+		fd, ok := d.(*ast.FuncDecl)
+		if !ok || fd.Body == nil || recvName(fd) != "TryStatement" {
+			continue
+		}
+		methods++
+		if len(fd.Recv.List[0].Names) == 0 {
+			continue
+		}
+		recv := fd.Recv.List[0].Names[0].Name
+		where := "TryStatement." + fd.Name.Name
+		add := func(n ast.Node) { nf.writes = append(nf.writes, where+": "+src(fset, n)) }
+		selX := map[*ast.Ident]bool{}
+		ast.Inspect(fd.Body, func(x ast.Node) bool {
+			switch t := x.(type) {
+			case *ast.SelectorExpr:
+				if id, ok := t.X.(*ast.Ident); ok {
+					selX[id] = true
+				}
+			case *ast.StarExpr:
+				if id, ok := t.X.(*ast.Ident); ok {
+					selX[id] = true // (*recv).F
+				}
+			case *ast.AssignStmt:
+				for _, l := range t.Lhs {
+					if rootedField(l, recv) != "" {
+						add(t)
+						break
+					}
+				}
+			case *ast.IncDecStmt:
+				if rootedField(t.X, recv) != "" {
+					add(t)
+				}
+			case *ast.UnaryExpr:
+				if t.Op == token.AND && rootedField(t.X, recv) != "" {
+					add(t)
+				}
+			case *ast.CallExpr:
+				if se, ok := t.Fun.(*ast.SelectorExpr); ok {
+					if fld := rootedField(se.X, recv); fld != "" && (extra[fld] || storingMethods[se.Sel.Name]) {
+						add(t)
+					}
+				}
+			}
+			return true
+		})
+		ast.Inspect(fd.Body, func(x ast.Node) bool {
+			if id, ok := x.(*ast.Ident); ok && id.Name == recv && id.Obj != nil && !selX[id] {
+				nf.writes = append(nf.writes, where+": the receiver itself is used as a value")
+			}
+			return true
+		})
+	}
+	if methods == 0 {
+		*shape = append(*shape, "no method of TryStatement found in node/try.go")
+	}
+	return nf
+}
+
 func leanGuards(gs []guard) string {
 	var parts []string
 	for _, g := range gs {
@@ -627,8 +785,9 @@ func genTryShape(a ex.Args) (string, error) {
 	var shape []string
 	pf := analyseParser(a.Repo, &shape)
 	sf := analyseScan(a.Repo, &shape)
+	nf := analyseNode(a.Repo, &shape)
 	var sb strings.Builder
-	sb.WriteString("import Model.ExcShape\n/-! How the clause list of a try statement is built (parser/try_parser.go) and scanned (node/try.go). -/\nnamespace Generated.C05TryShape\nopen Model.ExcShape\n\n")
+	sb.WriteString("import Model.ExcShape\nimport Model.ExcMemo\n/-! How the clause list of a try statement is built (parser/try_parser.go) and scanned (node/try.go). -/\nnamespace Generated.C05TryShape\nopen Model.ExcShape\n\n")
 	sb.WriteString("def parser : ParserFacts :=\n  { writes := [")
 	for i, w := range pf.writes {
 		if i > 0 {
@@ -656,10 +815,11 @@ func genTryShape(a ex.Args) (string, error) {
 		fmt.Fprintf(&sb, "\n      { fn := %s, forward := %v, testIsMatch := %v, stopsAtMatch := %v }", ex.LeanString(l.fn), l.forward, l.testIsMatch, l.stopsAtMatch)
 	}
 	fmt.Fprintf(&sb, "],\n    otherUses := %s,\n    storedAsGiven := %v }\n\n", leanStrings(sf.otherUses), sf.storedAsGiven)
+	fmt.Fprintf(&sb, "def node : Model.ExcMemo.NodeFacts :=\n  { writes := %s,\n    extraFields := %s }\n\n", leanStrings(nf.writes), leanStrings(nf.extraFields))
 	fmt.Fprintf(&sb, "def shapeChanged : List String := %s\n\nend Generated.C05TryShape\n", leanStrings(shape))
 	if err := ex.WriteIfChanged(a.Out, "C05TryShape.lean", sb.String()); err != nil {
 		return "", err
 	}
-	return fmt.Sprintf("C05TryShape: %d stores, %d skips, %d+%d returns, %d scan loops, %d other uses of CatchBlocks, shapeChanged=%d",
-		len(pf.writes), len(pf.skips), pf.tryReturns, len(pf.otherReturns), len(sf.loops), len(sf.otherUses), len(shape)), nil
+	return fmt.Sprintf("C05TryShape: %d stores, %d skips, %d+%d returns, %d scan loops, %d other uses of CatchBlocks, %d node writes, %d extra fields, shapeChanged=%d",
+		len(pf.writes), len(pf.skips), pf.tryReturns, len(pf.otherReturns), len(sf.loops), len(sf.otherUses), len(nf.writes), len(nf.extraFields), len(shape)), nil
 }
